@@ -211,9 +211,9 @@ _T["C07"] = ("Theorems unsigned_roundtrip / signed_roundtrip / narrow_roundtrip 
 _T["C04"] = ("PARTIAL with a recorded finding. Proved: literal_has_value, integer_exact_signed / integer_exact_unsigned (every in-range decimal integer literal decodes exactly in all four widths), nondecimal_exact (#H/#Q/#B up to the type width), conversion_sees_literal_partial (a decimal literal WITHOUT inner white space, not the single digit 0 followed by x/X, is converted whole by strtod whatever follows it), unit_names_distinct, unit_names_lex_whole, translateUnit_finds, unit_prefix_rule (every row of the generated unit table has multiplier 1, is explained by an SI prefix of table 7-2, or is one of nine listed rows), special_mnemonics. Disproved and kept visible: conversion_counterexample ('1 E3' lexes as one literal of value 1000 but converts as 1) - genuine defect, recorded as known finding C04.whitespace_in_literal; hexfloat_counterexample ('0x1': unobservable, the suffix is always rejected, unit_names_no_x). Correct rounding of strtod is trusted (C library) and judged on every run against exact rational arithmetic.",
             "Lean kernel + standard axioms; translator for the unit table (multipliers as exact rationals) and special numbers; strtod's rounding is trusted libc and judged per run with Spec/Float.lean; context model tied to parser.c/units.c/utils.c by scripted differential testing",
             "Lean 4 theorems over reader models and generated unit table + exact-rational judge + differential correspondence")
-_T["C08"] = ("PARTIAL with a recorded finding. Proved for every context and every stream (pending bytes included) WITHOUT QUOTE CHARACTERS: chunking_invariant_noquote / chunking_bytewise_noquote / input_split_noquote - any two partitions into non-empty chunks (cuts directly after a CR included), and feeding byte by byte, give the same handler invocations, parameters, errors, output bytes, flushes, registers, error queue and unconsumed remainder (UserObservable); the stronger Observable, which also records the message boundaries seen by the verification hook, is equal for streams without CR (input_split_partial, chunking_invariant_partial, chunking_invariant_noquote_nocr, chunking_bytewise_partial) and for partitions that do not cut directly after a CR (input_split_cr_partial, chunking_invariant_cr_partial); scan_prefix_stable (the terminator scan of SCPI_Input decides on bytes already present); flush_executes_pending (a zero-length call executes the pending bytes as one message and empties the buffer). Definite-length blocks with arbitrary data are covered. All rest on the proved model lemma parseLocalCR (SCPI_Parse of a message ending in LF or CR never depends on buffer bytes behind it). Disproved and kept visible: chunking_counterexample (a line terminator inside a quoted string ends the message when the stream arrives in pieces and not when it arrives whole) - genuine defect, known finding C08.terminator_inside_quotes; chunking_crlf_difference (a cut between CR and LF makes the LF an empty message of its own: same handlers, parameters and output; only the hook's message record differs).",
+_T["C08"] = ("PARTIAL with a recorded finding. Proved for every context and every stream (pending bytes included) IN WHICH NO QUOTED STRING CONTAINS A LINE TERMINATOR (QuotesLineLocal: no word of the string language of the token specification that starts directly after a blank or a comma contains LF or CR; decidable, quotesLineLocal_iff; implied by the absence of quote characters, quotesLineLocal_of_noQuotes; rejects the stream of the counterexample, counterexample_not_quotesLineLocal; a line-by-line pairing of quotes would not be sound, pairing_is_not_enough): chunking_invariant_quotes / chunking_bytewise_quotes / input_split_quotes (UserObservable, any partition, cuts inside a string or directly after a CR included), input_split_cr_quotes / chunking_invariant_cr_quotes (Observable, no cut directly after a CR), input_split_nocr_quotes / chunking_invariant_nocr_quotes / chunking_bytewise_nocr_quotes (Observable, streams without CR), scan_prefix_stable_quotes, each instantiated on the stream TXT \"a;b\",'c'<LF> cut inside the string (quotes_example, ..._example). The quote-free theorems are special cases: chunking_invariant_noquote / chunking_bytewise_noquote / input_split_noquote - any two partitions into non-empty chunks (cuts directly after a CR included), and feeding byte by byte, give the same handler invocations, parameters, errors, output bytes, flushes, registers, error queue and unconsumed remainder (UserObservable); the stronger Observable, which also records the message boundaries seen by the verification hook, is equal for streams without CR (input_split_partial, chunking_invariant_partial, chunking_invariant_noquote_nocr, chunking_bytewise_partial) and for partitions that do not cut directly after a CR (input_split_cr_partial, chunking_invariant_cr_partial); scan_prefix_stable (the terminator scan of SCPI_Input decides on bytes already present); flush_executes_pending (a zero-length call executes the pending bytes as one message and empties the buffer). Definite-length blocks with arbitrary data are covered. All rest on the proved model lemma parseLocalCR (SCPI_Parse of a message ending in LF or CR never depends on buffer bytes behind it). Disproved and kept visible: chunking_counterexample (a line terminator inside a quoted string ends the message when the stream arrives in pieces and not when it arrives whole) - genuine defect, known finding C08.terminator_inside_quotes; chunking_crlf_difference (a cut between CR and LF makes the LF an empty message of its own: same handlers, parameters and output; only the hook's message record differs).",
             "Lean kernel + standard axioms; context model tied to parser.c by scripted differential testing of every case in two segmentations (P8 mode, a quarter of them with an exact-fit input buffer) plus directed streams with numeric tails and flush calls, under ASan with the buffer-tail poisoning hook",
-            "Lean 4 theorems (scan / parse / move decomposition of SCPI_Input, locality of SCPI_Parse, CR LF case analysis) + differential correspondence of two segmentations")
+            "Lean 4 theorems (scan / parse / move decomposition of SCPI_Input, prefix stability of the scan on the specification side incl. string tokens, locality of SCPI_Parse, CR LF case analysis) + differential correspondence of two segmentations")
 for _k, (_a, _b, _c) in _T.items():
     PROPS[_k]["level_text"], PROPS[_k]["level_note"], PROPS[_k]["technique"] = _a, _b, _c
 
